@@ -160,20 +160,39 @@ def r4_emission(ctx):
     if fn is None:
         r.missing("fit_in_leptos_tuple")
     else:
-        t = flatp(show(fn.body))
-        qs = [flat(tok_text(q["tokens"])) for q in xquotes(fn.body)]
-        chains = []
-        for l in find_all(fn.body, "Let"):
-            if "init" in l and show_pat(l["pat"]).split()[-1] == "values":
-                base, ch = method_chain(l["init"])
-                chains.append((show(base), [m for m, _, _ in ch], [show(a[0]) if a else "" for _, a, _ in ch]))
-        ok = qs == ["((#(#values,)*))", "((#(#values,)*))"] or qs == ["(#(#values,)*)", "(#(#values,)*)"]
-        ok = ok and len(chains) == 1 and chains[0][0] == "values" and chains[0][1] == ["chunks", "map"] and chains[0][2] == ["chunk_size", "fit_in_leptos_tuple"]
-        ok = ok and has(t, "letchunk_size=values_len.div_ceilTUPLE_MAX_SIZE") and has(t, "ifvalues_len<=TUPLE_MAX_SIZE")
-        if ok:
-            r.inst("fit_in_leptos_tuple", "<= max: (#(#values,)*); else values.chunks(ceil(len/max)).map(fit_in_leptos_tuple): forward, complete (the last chunk may be shorter)")
+        # symbolic evaluation (rules/absint.py) on 3, 26, 27, 60 and 700 pieces: every piece must appear exactly once, in order,
+        # in tuples of at most 26 elements
+        from rules import absint
+        from rules.absint import AEval, L, TOK
+        funcs = {"fit_in_leptos_tuple": fn}
+        bad = []
+        for n in (0, 1, 3, 26, 27, 60, 700):
+            v = AEval(funcs=funcs).run_fn(fn, [L(*[TOK("v%d" % k) for k in range(n)])])
+            if isinstance(v, str) or v[0] != "tok":
+                bad.append((n, v if isinstance(v, str) else absint.fmt(v)))
+                continue
+            txt = re.sub(r"\s+", "", v[1])
+            seq = re.findall(r"v\d+", txt)
+            # tuple arities: count elements at each nesting level
+            depth = 0
+            counts = []
+            stack = []
+            ok_arity = True
+            for ch in txt:
+                if ch == "(":
+                    stack.append(0)
+                elif ch == ")":
+                    c = stack.pop()
+                    if c > 26:
+                        ok_arity = False
+                elif ch == "," and stack:
+                    stack[-1] += 1
+            if seq != ["v%d" % k for k in range(n)] or not ok_arity or stack:
+                bad.append((n, "pieces %s.. arity-ok=%s" % (seq[:8], ok_arity)))
+        if not bad:
+            r.inst("fit_in_leptos_tuple", "for 0..700 pieces: every piece exactly once, in order, in (nested) tuples of at most 26 elements")
         else:
-            r.viol("R4:fit_in_leptos_tuple", "large blocs are not regrouped with forward, complete chunks (found %s / %s): trailing or reordered pieces are lost" % (chains, qs), file=fn.file, line=fn.line)
+            r.viol("R4:fit_in_leptos_tuple", "large blocs are not regrouped with forward, complete chunks: %s: trailing or reordered pieces are lost" % bad[:3], file=fn.file, line=fn.line)
     return r
 
 
@@ -261,7 +280,14 @@ def r6_display(ctx):
     fn = ast.fn(MV, "flatten_string")
     if fn is not None:
         qs = [flat(tok_text(q["tokens"])) for q in xquotes(fn.body)]
-        if "l_i18n_crate::display::DisplayComponent::fmt(#key,__formatter,|__formatter|#inner)" in qs:
+        mm = [re.match(r"^l_i18n_crate::display::DisplayComponent::fmt\(#key,__formatter,\|__formatter\|#(\w+)\)$", q) for q in qs]
+        mm = [m for m in mm if m]
+        src_ok = False
+        if mm:
+            for l in find_all(fn.body, "Let"):
+                if l["pat"]["k"] == "PIdent" and l["pat"]["name"] == mm[0].group(1) and "init" in l and flat(show(l["init"])).startswith("as_string_impl(inner,"):
+                    src_ok = True
+        if mm and src_ok:
             r.inst("flatten_string#Component", "DisplayComponent::fmt(key, f, |f| children)")
         else:
             r.viol("R6:flatten_string#Component", "string back-end does not render components through DisplayComponent::fmt(key, f, children)", file=fn.file, line=fn.line)
